@@ -11,6 +11,9 @@ Decided (typestate / rekey rules, every history):
               reset_with_key; the hashing contexts' reset_with_key / new_keyed produce the same
               state (zeroed block with key prefix, buflen, engine parameters)
   delegate    every legacy digest delegates input/result/reset to the hashing context of its name
+              on EVERY path (a reset skipped when no result was taken yet keeps the bytes already fed)
+  hmac-keys   the retained i_key / o_key are the RFC 2104 pads of the key for every key length (a key of exactly one block
+              is used as is), shared with C08
 Not decided: digest / MAC values."""
 import re
 
